@@ -3,6 +3,8 @@ import os, sys
 sys.path.insert(0, os.path.join(os.path.dirname(__file__), '..', '..', 'tools'))
 import vlib
 from vlib import Job
+sys.path.insert(0, os.path.join(os.path.dirname(__file__), '..', 'bx'))
+import bxcfg
 
 PID = 'C03'
 HERE = os.path.dirname(os.path.abspath(__file__))
@@ -85,9 +87,9 @@ OPB_ROOTS = ['op_bind::next', 'op_bind::current', 'op_read::next', 'op_upread::n
 ROOTS = ['bindings::bind', 'bindings::find', 'uprefs::find', 'uprefs::refd_ids', '_ZN6uprefsC1ER8bindingsRS_']
 
 
-def prepare(tier):
-    lw = vlib.extract('bind', 'libzwerg/bindings.cc', CFG, ROOTS, OUT)
-    return {'unit': 'libzwerg/bindings.cc', 'functions': lw.report['functions']}
+
+
+BX_DROPPED = {}
 
 
 def jobs(tier):
@@ -112,23 +114,25 @@ def jobs(tier):
     add('bounded_lex_closure', osrc, 'hb_lex_closure', 'bounded', 'op_lex_closure::next with <= 4 up-values')
     J.append(Job('control', bsrc, 'h_control', includes=inc, defines=['VERIF_CONTROL'], kind='control', expect='fail', unwind=9, timeout=300))
     J.append(Job('opb_control', osrc, 'h_opb_control', includes=inc, defines=['VERIF_CONTROL'], kind='control', expect='fail', unwind=9, timeout=300))
+    J += bxcfg.jobs(vlib, Job, OUT, ['alt', 'scope'], control=False)
     return J
 
 
 LEVEL = 'proof'
 TRUSTED = ['tools/cxx2c.py lowering']
 ASSUMPTIONS = [
+    'build_exec (build.cc): only the cases IFELSE ALT SCOPE CAPTURE CLOSE_STAR CLOSE_PLUS OR CAT of its switch are lowered (cxx2c keep_cases; the other cases are dropped and reaching one is a failed obligation); the recursive call is an ASSUMED contract with a ghost call log (records tree, layout, scope, upstream; never shrinks the layout -- re-established for the lowered cases), operator constructors that take a layout reserve an arbitrary non-empty range at its end (contract of layout::reserve, C13), layout::add_union by its C13 contract (props/bx/bx_model.h)',
     'identifiers are atoms (equal atoms <=> equal strings); std::map<std::string,T> is a total table over 4 atoms (props/c03/bind_model*.h); the functions under proof touch only the slot of their argument and the obligations are stated for an arbitrary probe name',
     'throw std::runtime_error -> error flag, message construction dropped; assert() failure -> error flag',
     'operators: stacks are arrays of value identities of depth <= 7, unique_ptr = plain pointer/int, value::clone() = identity, scon::get<state>(loc) = one state object per location, value_closure construction records the captured environment (props/c03/opb_model*.h)',
     'build_pred (build.cc): trees, layout, preds and build_exec are modelled (props/c03/bp_model.h); only the scope handed to build_exec is checked',
-    'SLICE: build_exec of build.cc (scopes of the other constructs incl. format directives and ALT branches, the order of reads emitted for a block, READ/BIND cases), uprefs constructor, names_closure, op_apply::substate and the parser are NOT covered',
+    'SLICE: build_exec of build.cc beyond its ALT and SCOPE cases (scopes of format directives, the order of reads emitted for a block, READ/BIND cases), uprefs constructor, names_closure, op_apply::substate and the parser are NOT covered',
 ]
 EXPLANATION = 'Scope chain, rebind check, up-value ids and the binder/reader operators; see DESIGN.md section 4 C03.'
 
 
 def spec_files():
-    return [os.path.join(HERE, f) for f in ('bind_harness.c', 'opb_harness.c', 'bp_harness.c', 'bind_model.h', 'bind_model2.h', 'opb_model.h', 'opb_model2.h', 'bp_model.h')]
+    return [os.path.join(vlib.VERIF, 'props', 'bx', 'bx_harness.c'), os.path.join(vlib.VERIF, 'props', 'bx', 'bx_model.h')] + [os.path.join(HERE, f) for f in ('bind_harness.c', 'opb_harness.c', 'bp_harness.c', 'bind_model.h', 'bind_model2.h', 'opb_model.h', 'opb_model2.h', 'bp_model.h')]
 
 
 def prepare(tier):
@@ -136,7 +140,9 @@ def prepare(tier):
     ow = vlib.extract('opb', 'libzwerg/op.cc', OPB_CFG, OPB_ROOTS, OUT)
     pw = vlib.extract('bp', 'libzwerg/build.cc', BP_CFG, BP_ROOTS, OUT)
     ow.report['functions'] += pw.report['functions']
-    return {'unit': 'libzwerg/bindings.cc, libzwerg/op.cc (binder/reader operators)', 'functions': lw.report['functions'] + ow.report['functions']}
+    global BX_DROPPED
+    bxw, BX_DROPPED = bxcfg.prepare(vlib, OUT)
+    return {'build_exec_cases_lowered': BX_DROPPED.get('kept'), 'build_exec_cases_dropped_by_extraction': BX_DROPPED.get('dropped'), 'build_exec_functions': bxw.report['functions'], 'unit': 'libzwerg/bindings.cc, libzwerg/op.cc (binder/reader operators)', 'functions': lw.report['functions'] + ow.report['functions']}
 
 
 QUERIES = [('1 2 (|A B| A B)', '<1|2>'), ('1 2 (|A B| B A)', '<2|1>'), ('7 (|A| 8 (|A| A))', '<8>'), ('1 (|A| 2 (|B| A B))', '<1|2>'),
@@ -146,7 +152,7 @@ QUERIES = [('1 2 (|A B| A B)', '<1|2>'), ('1 2 (|A B| B A)', '<2|1>'), ('7 (|A| 
            ('1 (|A| (2, 3) (|B| A B))', '<1|2> <1|3>'), ('4 (|A| {A}) (|F| 9 (|A| F))', '<4>'), ('1 2 3 (|A B C| {C B A}) apply', '<3|2|1>'),
            ('1 (|A| 2 (|B| {A B})) (|F| 3 (|A| 4 (|B| F)))', '<1|2>'),
            ('5 ?(let A := 1;) A', None), ('5 !(let A := 1; 0 1 ?eq) A', None), ('"%( let A := 1; A %)" A', None), ('(let A := 1;)? A', None),
-           ('(0, 5) (?(1 ?lt) let A := 7;)? A', None), ('let A := 1; ?(let A := 2;) A', '<1>'), ('7 (let A := 2; A, let A := 3; A)', '<7|2> <7|3>'),
+           ('(0, 5) (?(1 ?lt) let A := 7;)? A', None), ('let A := 1; ?(let A := 2;) A', '<1>'), ('7 (let A := 2; A, let A := 3; A)', '<7|2> <7|3>'), ('(let A := 1; , 2) A', None), ('1 (let A := 2; , ) let A := 3; A', '<1|3> <1|3>'),
            ('1 2 (|A B| {B {A} apply} apply)', '<2|1>'), ('1 2 3 (|A B C| {C {A B C} apply} apply)', '<3|1|2|3>'), ('10 3 (|A B| {A B sub}) apply', '<7>'),
            ('1 (|A| {2 (|A| {A} apply)} apply)', '<2>'), ('1 2 (|A B| {A 10 add (|A| {A B})} apply apply)', '<11|2>')]
 
